@@ -193,7 +193,7 @@ class C16(Prop):
     RULE = ('hour grid over 2021-02-27..2021-03-03 (month boundary, non-leap February; 6-hour grid in the quick tier): a '
             'recording at every grid instant, every window (start, end) on the grid with explicit end, and for every `now` on '
             'the grid every start with the end defaulting to now; instants at 23:59/00:00/00:01 around midnights with windows '
-            'of <1 day crossing midnight, 24 h, 24 h +- 1 min, 48 h; random minute-level buckets of 5-25 recordings in 6 days '
+            'of <1 day crossing midnight, 24 h, 24 h +- 1 min, 48 h; one recording a day over 45 days with windows of 15-45 day folders; random minute-level buckets of 5-25 recordings in 6 days '
             'with 8-20 windows (limits, filters, random order); one case = one bucket + its windows; per case additionally (not '
             'modelled): its first window with the 1st / 2nd / 3rd / 5th read request (listing step or GET) answered by an error - the '
             'lookup raises or is exact - and its first two windows consumed interleaved through one cassette; a case is non-trivial '
